@@ -253,7 +253,10 @@ def check_region(ctx, reg, model, rc, tags, rng, origins=None, n_single=150):
                         tags=dict(tags, api="get_index_of", clause="batch-vs-single"))
     # --- catalog entry points on the same points
     sel = rng.permutation(lon.size)[:1500]
-    cat = fixtures.catalog(lon[sel], lat[sel], numpy.full(sel.size, 5.0), region=None)
+    # half of the catalogs are already bound to some other region (history): the region handed to filter_spatial must win
+    prebound = bool(rng.integers(0, 2))
+    cat = fixtures.catalog(lon[sel], lat[sel], numpy.full(sel.size, 5.0), region=fixtures.region(3, 2, "0.5", "7", "-3") if prebound else None)
+    tags = dict(tags, catalog_bound_to_other_region=prebound)
     ok, kept, tb = ctx.call(cat.filter_spatial, reg, in_place=False)
     ctx.mon("agree:filter_spatial", 1)
     if not ok:
